@@ -343,6 +343,14 @@ def api_cases(full: bool):
                         a, av = _arr("a", d, shp)
                         return getattr(pt, rop)(a, axis=ax), {"a": av}
                     yield f"{rop}:{d},{shp},{ax}", mkr
+    # axis lengths given as NumPy integers (ShapeComponent admits np.integer)
+    for rop in ("sum", "amax", "any"):
+        for shp, ax in (((np.int64(2), 3), 0), ((np.int64(2), 3), 1),
+                        ((np.int32(3), np.int64(2)), None), ((np.int64(3),), 0)):
+            def mkri(rop=rop, shp=shp, ax=ax):
+                a, av = _arr("a", "float64", shp)
+                return getattr(pt, rop)(a, axis=ax), {"a": av}
+            yield f"{rop}:npint,{tuple(int(i) for i in shp)},{ax}", mkri
     for d in dts:
         for shp in ((), (3,), (2, 0), (2, 3)):
             def mkf(d=d, shp=shp):
@@ -352,6 +360,14 @@ def api_cases(full: bool):
             def mkz(d=d, shp=shp):
                 return pt.zeros(shp, np.dtype(d)), {}
             yield f"zeros:{d},{shp}", mkz
+
+            if d in ("float32", "float64", "complex128"):
+                # non-finite fill values (NaN is its own scalar primitive)
+                for fv in ("nan", "inf", "-inf"):
+                    def mkfn(d=d, shp=shp, fv=fv):
+                        return pt.full(shp, np.dtype(d).type(float(fv)),
+                                       np.dtype(d)), {}
+                    yield f"full:{fv},{d},{shp}", mkfn
 
             def mko(d=d, shp=shp):
                 return pt.ones(shp, np.dtype(d)), {}
@@ -467,6 +483,10 @@ def near_miss(draw):
         lb = draw(st.sampled_from([0, 0, 0, 1]))
         body = ["reduce", draw(st.sampled_from(["sum", "max", "any"])),
                 {"_r0": [lb, 3], "_r1": [0, 3]}, inner]
+        if draw(st.integers(0, 3)) == 0:
+            # keep a bound no subscript uses: the reduction then also runs
+            # over that variable (a sum is multiplied by its trip count)
+            body.append("keep_unused")
     else:
         body = expr(2, False)
     return {"shape": shape, "dtype": draw(st.sampled_from(
@@ -514,6 +534,11 @@ def build_near_miss(desc):
             return p.Sum(tuple(conv(c) for c in e[1]))
         if t == "prod":
             return p.Product(tuple(conv(c) for c in e[1]))
+        if t == "nary":
+            cls = {"lor": p.LogicalOr, "land": p.LogicalAnd,
+                   "bor": p.BitwiseOr, "band": p.BitwiseAnd,
+                   "bxor": p.BitwiseXor}[e[1]]
+            return cls(tuple(conv(c) for c in e[2]))
         if t == "cast":
             return TypeCast(np.dtype(e[1]), conv(e[2]))
         if t == "cmp":
@@ -530,7 +555,8 @@ def build_near_miss(desc):
                   "max": red.MaxReductionOperation,
                   "any": red.AnyReductionOperation}[e[1]]()
             from constantdict import constantdict
-            bounds = {k: tuple(v) for k, v in e[2].items() if k in used_red}
+            bounds = {k: tuple(v) for k, v in e[2].items()
+                      if k in used_red or (len(e) > 4 and used_red)}
             if not bounds:
                 return inner
             return Reduce(inner, op, constantdict(bounds))
@@ -603,7 +629,9 @@ def run_shard(shard: int, nshards: int, seed: int, tier: str) -> ShardResult:
 
     hyp_run(near_miss(), body, seed, pl["examples"])
     for k, desc in enumerate(itertools.chain(permuted_reductions(),
-                                             negated_term_sums())):
+                                             negated_term_sums(),
+                                             odd_bound_reductions(),
+                                             nary_logic())):
         if k % nshards == shard:
             res.count("enumerated_hand_built")
             body(desc)
@@ -673,6 +701,53 @@ def permuted_reductions():
                                              "dtype": "float64"}],
                                "expr": ["reduce", op, {"_r0": [0, 3]},
                                         ["sub", "x", idx]]}
+
+
+def nary_logic():
+    """logical / bitwise operations with two and with THREE operands (the
+    API only builds binary ones): three operands are not a BinaryOp"""
+    b = [{"name": nm, "shape": [2, 3], "dtype": "int32"}
+         for nm in ("x", "y", "z")]
+
+    def ref(nm):
+        return ["sub", nm, [["v", 0], ["v", 1]]]
+    for op in ("lor", "land", "bor", "band", "bxor"):
+        for dtype in ("bool",) if op in ("lor", "land") else ("int32",):
+            yield {"shape": [2, 3], "dtype": dtype, "bindings": b[:2],
+                   "expr": ["nary", op, [ref("x"), ref("y")]]}
+            yield {"shape": [2, 3], "dtype": dtype, "bindings": b,
+                   "expr": ["nary", op, [ref("x"), ref("y"), ref("z")]]}
+            yield {"shape": [2, 3], "dtype": dtype, "bindings": b,
+                   "expr": ["nary", op, [ref("x"), ["const", 1], ref("z")]]}
+            yield {"shape": [2, 3], "dtype": dtype, "bindings": b[:1],
+                   "expr": ["nary", op, [ref("x")]]}
+
+
+def odd_bound_reductions():
+    """reductions that are 'normal' except that (a) a further bound is
+    declared that no subscript uses - the reduction then runs over it too -
+    or (b) one reduction variable subscripts two axes (a diagonal)"""
+    for op in ("sum", "max", "any"):
+        for S, idx, shape in (
+                ((2, 3), [["v", 0], ["r", 0]], [2]),
+                ((3, 2), [["r", 0], ["v", 0]], [2]),
+                ((3,), [["r", 0]], []),
+                ((2, 3, 2), [["v", 0], ["r", 0], ["v", 1]], [2, 2])):
+            for extra in ([0, 2], [0, 3], [0, 1], [1, 3]):
+                yield {"shape": shape, "dtype": "float64",
+                       "bindings": [{"name": "x", "shape": list(S),
+                                     "dtype": "float64"}],
+                       "expr": ["reduce", op, {"_r0": [0, 3], "_r1": extra},
+                                ["sub", "x", idx], "keep_unused"]}
+        for S, idx, shape in (
+                ((3, 3), [["r", 0], ["r", 0]], []),
+                ((3, 3, 2), [["r", 0], ["r", 0], ["v", 0]], [2]),
+                ((2, 3, 3), [["v", 0], ["r", 0], ["r", 0]], [2]),
+                ((3, 2, 3), [["r", 0], ["v", 0], ["r", 0]], [2])):
+            yield {"shape": shape, "dtype": "float64",
+                   "bindings": [{"name": "x", "shape": list(S),
+                                 "dtype": "float64"}],
+                   "expr": ["reduce", op, {"_r0": [0, 3]}, ["sub", "x", idx]]}
 
 
 def replay(case) -> Failure | None:
